@@ -6,6 +6,7 @@ package sim
 import (
 	"context"
 	"fmt"
+	"sort"
 	"time"
 
 	modbus "github.com/aldas/go-modbus-client"
@@ -255,8 +256,25 @@ func runC11(rc *RunCtx) {
 				built = append(built, func(a uint16) (bool, error) { return r.IsCoilSet(uint16(start), a) })
 			}
 		}
-		for a := start - 100; a <= start+8*payloadBytes+100; a++ {
-			if addrs[a] && a >= 0 && a < 65536 {
+		// far outside: distances at which narrow arithmetic on the bit or byte index would wrap back into the payload
+		for _, far := range []int{2048, 2048 + 8, 4096, 8 * 256 * 3, 32768, 65535} {
+			for _, d := range []int{0, 1, 8*payloadBytes - 1} {
+				addrs[start+far+d] = true
+				addrs[start-far+d] = true
+			}
+		}
+		for _, d := range []int{0, 1, 65535} {
+			addrs[d] = true
+		}
+		order := make([]int, 0, len(addrs))
+		for a := range addrs {
+			if a >= 0 && a < 65536 {
+				order = append(order, a)
+			}
+		}
+		sort.Ints(order)
+		for _, a := range order {
+			{
 				v, err := ask(uint16(a))
 				queries = append(queries, coilQuery{addr: uint16(a), got: v, err: err})
 				for bi, f := range built {
